@@ -11,7 +11,8 @@ package main
 //   replication.WALEntryToProto; deliveries address it by position:
 //     seg I J [f=K]      the contiguous piece L[I,J)        (f=K: the K-th applyFn call fails)
 //     idx i,j,k [f=K]    any selection (duplicates, holes, any order)
-//     poll FROM [f=K]    what getWALEntriesFromSequence would return (seq >= FROM, first 100)
+//     poll FROM [f=K]    what getWALEntriesFromSequence returns (seq >= FROM, the first 100 and on to
+//                        the end of the 100th entry's sequence number)
 //     raw n [f=K] + n lines  e SEQ PAYLOAD        literal wire entries (malformed stream)
 //     reset              connection reset: the applier object survives; a new stream asks
 //                        for GetExpectedNext
@@ -662,13 +663,17 @@ func runC13(c *Case, out func(string)) {
 			from := parseNum(l[1])
 			d := &c13Deliv{form: "seg", i: len(o.L), j: len(o.L), failat: c13Failat(l[2:])}
 			var es []*rpb.WALEntry
+			// getWALEntriesFromSequence since f62340e: 100 entries, then on to the end of the
+			// sequence number the 100th carries
 			for x, e := range o.L {
-				if e.seq >= from && len(es) < 100 {
+				if e.seq >= from && (len(es) < 100 || e.seq == o.L[d.j-1].seq) {
 					if len(es) == 0 {
 						d.i = x
 					}
 					es = append(es, mk(e))
 					d.j = x + 1
+				} else if e.seq >= from {
+					break
 				}
 			}
 			deliver(d, es)
@@ -989,8 +994,9 @@ func c13GenSplit(r *rand.Rand, g *c13GenLog) []string {
 	return ev
 }
 
-// what today's primary does in the steady state: poll from the acknowledged number + 1, at
-// most 100 entries, acknowledged by the last number of the delivery
+// what the primary does in the steady state: poll from the acknowledged number + 1 (fetch of
+// 100 entries extended to a transaction boundary), acknowledged by the last number of the
+// delivery; sometimes from a stale number. No known-finding class applies.
 func c13GenPoll(r *rand.Rand, g *c13GenLog) []string {
 	var ev []string
 	from := uint64(1)
@@ -998,7 +1004,7 @@ func c13GenPoll(r *rand.Rand, g *c13GenLog) []string {
 		last := uint64(0)
 		cnt := 0
 		for _, s := range g.seqs {
-			if s >= from && cnt < 100 {
+			if s >= from && (cnt < 100 || s == last) {
 				last = s
 				cnt++
 			}
@@ -1009,6 +1015,9 @@ func c13GenPoll(r *rand.Rand, g *c13GenLog) []string {
 		ev = append(ev, fmt.Sprintf("poll %d", from))
 		if r.Intn(3) == 0 {
 			ev = append(ev, fmt.Sprintf("poll %d", from)) // sent twice before the ack arrived
+		}
+		if r.Intn(5) == 0 && from > 1 {
+			ev = append(ev, fmt.Sprintf("poll %d", 1+uint64(r.Int63n(int64(from))))) // a stale fetch
 		}
 		ev = append(ev, "ack")
 		from = last + 1
@@ -1123,6 +1132,28 @@ func genC13(w *bufio.Writer, seed int64, n int, tier string) {
 		kind := "sched"
 		if i%10 == 9 {
 			kind = "engine"
+		}
+		if i%125 == 124 {
+			// the real Primary emits (about 1.5 s each): a transaction placed around the 100-entry
+			// fetch limit, sometimes far from it
+			pre := 90 + r.Intn(12)
+			if r.Intn(4) == 0 {
+				pre = r.Intn(40)
+			}
+			fmt.Fprintf(w, "case c13-%d-%d kind=emit start=1 class=emit\n", seed, i)
+			for j := 0; j < pre; j++ {
+				fmt.Fprintf(w, "w put %s %s\n", mkTok([]byte(fmt.Sprintf("p%03d", j))), c13Val(r))
+			}
+			tx := 2 + r.Intn(30)
+			fmt.Fprintf(w, "w batch %d\n", tx)
+			for j := 0; j < tx; j++ {
+				fmt.Fprintf(w, "o put %s %s\n", mkTok([]byte(fmt.Sprintf("t%03d", j))), c13Val(r))
+			}
+			for j := 0; j < 1+r.Intn(4); j++ {
+				fmt.Fprintf(w, "w put %s %s\n", mkTok(genKey(r, 4)), c13Val(r))
+			}
+			fmt.Fprintln(w, "end")
+			continue
 		}
 		class := []string{"aligned", "split", "poll", "hostile", "restart"}[pick(r, 46, 22, 10, 14, 8)]
 		nops := 3 + r.Intn(14)
